@@ -703,7 +703,7 @@ class Interp(object):
             except _Continue:
                 return ('normal', fr)
             except _Break:
-                raise Unsupported('break in symbolic range loop')
+                return ('break', fr)
             except _Return as r:
                 return ('return', r.v)
 
@@ -727,6 +727,8 @@ class Interp(object):
                 exits.append((cond, 'raise', p.outcome[1], p))
             elif p.outcome[1][0] == 'return':
                 exits.append((cond, 'return', p.outcome[1][1], p))
+            elif p.outcome[1][0] == 'break':
+                exits.append((cond, 'break', None, p))
             else:
                 fr = p.outcome[1][1]
                 for n in mod:
@@ -775,10 +777,20 @@ class Interp(object):
                             self.run.fact(f)
                     if kindo == 'raise':
                         raise Raised(payload, s)
+                    if kindo == 'break':
+                        # the loop stops at the first index k that breaks: accumulators hold the prefix sums up to k
+                        self.run.path.notes.append(('loop-prefix-dependence', s.lineno, 'break'))
+                        for n in mod:
+                            if n in entries:
+                                frame.locals[n] = SV(at[n].kind, term(frame.locals[n], at[n].kind) + entries[n]['f'](kk))
+                        return None
                     v = payload
                     if isinstance(v, SV):
                         sub = [(NVAR, kk)] + [(at[n].t, term(frame.locals[n], at[n].kind) + entries[n]['f'](kk)) for n in mod if n in entries]
-                        v = SV(v.kind, z3.substitute(v.t, *sub), v.cls)
+                        v2 = SV(v.kind, z3.substitute(v.t, *sub), v.cls)
+                        if v2.t.sexpr() != v.t.sexpr():
+                            self.run.path.notes.append(('loop-prefix-dependence', s.lineno, 'value returned from inside the loop depends on the index or on partial sums'))
+                        v = v2
                     elif is_sym(v):
                         raise Unsupported('symbolic container returned from loop exit')
                     raise _Return(v)
